@@ -27,6 +27,8 @@ def main():
     if res is None:
         print("NOT-REPRODUCED: property holds on the recorded inputs %s" % (json.dumps(cex.get('inputs'))[:400],))
         return 4
+    if res.classify is not None:
+        res.sig = str(res.classify(part, inputs))
     if res.sig != cex.get('sig'):
         print("NOT-REPRODUCED: concrete run fails with a different signature %r (symbolic run: %r): %s" % (
             res.sig, cex.get('sig'), res.why[:400]))
